@@ -303,7 +303,7 @@ def per_date(t, want, label, i, scale):
 # in-flight context of SecurityBase.allocate (to decide, when a sizing guard fires,
 # whether the request was in fact satisfiable - the known sizing defect, C05)
 
-_alloc = {"installed": False, "stack": [], "last_failed": None}
+_alloc = {"installed": False, "stack": [], "last_failed": None, "done": []}
 
 
 def install_alloc_spy():
@@ -316,7 +316,13 @@ def install_alloc_spy():
         ctx = {"node": self, "amount": float(amount)}
         _alloc["stack"].append(ctx)
         try:
-            return orig(self, amount, update)
+            pos0 = float(self._position)
+            r = orig(self, amount, update)
+            try:
+                _alloc["done"].append({"node": self, "name": self.full_name, "amount": float(amount), "pos0": pos0, "pos1": float(self._position), "price": float(self._price), "mult": float(self.multiplier), "integer": bool(self.integer_positions), "spread": float(self._bidoffer) if self._bidoffer_set else None, "value0": pos0 * float(self._price) * float(self.multiplier)})
+            except Exception:
+                pass
+            return r
         except BaseException:
             if _alloc["last_failed"] is None or _alloc["last_failed"].get("done"):
                 c = dict(ctx)
@@ -333,6 +339,12 @@ def install_alloc_spy():
 
     bt.core.SecurityBase.allocate = allocate
     _alloc["installed"] = True
+
+
+def take_allocs(root=None):
+    out = [d for d in _alloc["done"] if root is None or d["node"].root is root]
+    _alloc["done"] = []
+    return [{k: v for k, v in d.items() if k != "node"} for d in out]
 
 
 def take_failed_alloc():
